@@ -5,6 +5,7 @@ import os
 import time
 
 VERIF = os.environ.get("VERIF_DIR") or os.path.dirname(os.path.dirname(os.path.abspath(__file__)))
+OUT = os.environ.get("VERIF_OUT") or VERIF
 
 
 class Run:
@@ -49,7 +50,7 @@ class Run:
         known = self.known()
         status = 3 if self.status3 else 0
         nviol = nknown = 0
-        os.makedirs(os.path.join(VERIF, "replay"), exist_ok=True)
+        os.makedirs(os.path.join(OUT, "replay"), exist_ok=True)
         vl = []
         for i, (key, f) in enumerate(sorted(self.fails.items())):
             if key in known:
@@ -57,7 +58,7 @@ class Run:
                 print("KNOWN-FINDING: property=%s key=%s occurrences=%d :: %s" % (self.prop, key, f["count"], known[key]))
                 continue
             nviol += 1
-            path = os.path.join(VERIF, "replay", "%s-%s-%d.json" % (self.prop, self.tier, i))
+            path = os.path.join(OUT, "replay", "%s-%s-%d.json" % (self.prop, self.tier, i))
             json.dump({"engine": self.engine, "property": self.prop, "tier": self.tier, "key": key, "occurrences": f["count"],
                        "what": f["desc"], "case": f["case"]}, open(path, "w"))
             print("VIOLATION property=%s replay=%s" % (self.prop, path))
@@ -72,8 +73,8 @@ class Run:
             cov["violation_list"] = vl[:10]
         ev = {"property_id": self.prop, "tier": self.tier, "seed": int(os.environ.get("VERIF_SEED") or 0), "level": self.level, "coverage": cov,
               "assumptions": self.assumptions, "wall_s": round(time.time() - self.t0, 3), "violations": nviol}
-        os.makedirs(os.path.join(VERIF, "evidence"), exist_ok=True)
-        p = os.path.join(VERIF, "evidence", self.prop + ".json")
+        os.makedirs(os.path.join(OUT, "evidence"), exist_ok=True)
+        p = os.path.join(OUT, "evidence", self.prop + ".json")
         json.dump(ev, open(p + ".tmp", "w"), indent=1)
         os.replace(p + ".tmp", p)
         print("%s %s: cases=%d states=%d transitions=%d traces=%d distinct_outcomes=%d exhaustive=%s violations=%d known=%d wall=%.1fs"
